@@ -176,6 +176,13 @@ func evalFilter(f *FSpec, t *TypeSpec, rs *ResSpec) bool {
 				return f.Str != nil && id == *f.Str
 			case "!=":
 				return f.Str != nil && id != *f.Str
+			case "<", "<=", ">", ">=":
+				// the ID of a to-one relationship is a string: ordered like strings (byte-wise)
+				if f.Str == nil {
+					return false
+				}
+				r, _ := opOnCmp(f.Op, strings.Compare(id, *f.Str))
+				return r
 			}
 			return false
 		}
@@ -241,7 +248,7 @@ func genLeaf(r *RNG, t *TypeSpec, rs *ResSpec) FSpec {
 		if rs != nil && r.Bool() {
 			id = rs.ToOne[rl.Name]
 		}
-		switch r.Intn(3) {
+		switch r.Intn(4) {
 		case 0:
 			list := genToMany(r, 4)
 			if r.Bool() {
@@ -250,6 +257,12 @@ func genLeaf(r *RNG, t *TypeSpec, rs *ResSpec) FSpec {
 			return FSpec{Op: "in", Field: rl.Name, Strs: list, IsList: true}
 		case 1:
 			return FSpec{Op: "=", Field: rl.Name, Str: &id}
+		case 2:
+			// ordering by ID text: "10" < "9", "007" < "7"
+			if r.Bool() {
+				id = r.Pick([]string{"10", "9", "007", "7", "100", "99", "1", "01", "a", "B"})
+			}
+			return FSpec{Op: []string{"<", "<=", ">", ">="}[r.Intn(4)], Field: rl.Name, Str: &id}
 		default:
 			return FSpec{Op: "!=", Field: rl.Name, Str: &id}
 		}
